@@ -15,8 +15,18 @@
     `AttributeError` / "Sequence references stale", where the total hand model continues;
   * every message that is copied has a channel: `Message.__init__` replaces a `None` channel by 0, `HeapOps.msgCopy` copies
     the value (`messageCopy_eq_statement_false`).
+
+  Scalars outside the identity state: `Bar.default_channel` (source commit f9ef398) is not a field of `HeapOps.BarCell`.  The
+  translator treats it as value level (it checks that only a scalar is ever stored in it); its only use is the channel of the
+  TIME_SIGNATURE message `Bar.__init__` inserts, whose VALUE is the oracle's `tsMsg`, exactly as in `HeapOps.barFinish`.
+
+  Tied here: `Message.copy`, `AbstractSequence.copy`, `Sequence.__init__` / `copy` / `split` (the wrapper), `Bar.__init__` / `copy`,
+  `Bar.to_sequence`, `Track.__init__` / `copy`, `Composition.copy`.  Still tied by the sampled correspondence only:
+  `RelativeSequence.split` itself and the other view-level links of `Model/HeapLib.lean`, and `Sequence.sequences_split_bars`
+  (`HeapOps.splitBars`; its constituent steps — `Sequence.copy`, `Sequence(relative_sequence=…)`, `Sequence()`, `Bar(…)` — are the
+  translated functions above, its loop skeleton is not translated).
 -/
-import SCoda.Lemmas.HeapTieL
+import SCoda.Lemmas.HeapTieL2
 import SCoda.Props.C16c
 namespace SCoda.HeapTie
 open SCoda SCoda.HeapOps SCoda.HeapLib SCoda.Gen.HeapFns SCoda.HeapTieL SCoda.C16c
@@ -40,8 +50,8 @@ def noChannelHeap : Heap := (Heap.empty.newMsg { ty := .noteOn, ch := pyNone, no
     code: replayed), channel `None` in the hand model -/
 theorem messageCopy_eq_statement_false : ¬ messageCopy_eq_statement := by
   intro hst
-  have h1 := hst ⟨C16c.exOrc, fun _ _ => false, fun _ _ => none⟩ 0 0 noChannelHeap
-  have h2 : ((messageCopy ⟨C16c.exOrc, fun _ _ => false, fun _ _ => none⟩ 0 0 noChannelHeap).2.msg 1).ch = 0 := by
+  have h1 := hst ⟨C16c.exOrc, fun _ _ => false⟩ 0 0 noChannelHeap
+  have h2 : ((messageCopy ⟨C16c.exOrc, fun _ _ => false⟩ 0 0 noChannelHeap).2.msg 1).ch = 0 := by
     rw [messageCopy_run]; decide
   rw [h1] at h2
   revert h2
@@ -81,11 +91,12 @@ theorem messageCopy_fresh (g : GOrc) (tag i : Nat) (h : Heap) (hch : (h.msg i).c
 
 /-- the translated `Bar(sequence, numerator, denominator, key)` — a blank bar cell, then the translated `Bar.__init__`
     (attribute stores, `normalise`, the `messages_rel()` iterations, the optional `pad`, `overwrite_relative_messages` of
-    the kept message objects, the new TIME_SIGNATURE message inserted at index 0, `_abs_stale = True`) — IS `HeapOps.barInit`
+    the kept message objects, the new TIME_SIGNATURE message (value: the oracle's `tsMsg`) inserted at index 0,
+    `_abs_stale = True`) — IS `HeapOps.barInit`
     under the oracle `orcOf g`: the bar KEEPS the argument sequence object and rewrites it.
     Hypothesis: `sequence.rel` can be read (`SeqLive`; otherwise the code raises "Sequence references stale"). (A2) -/
 theorem barInit_eq (g : GOrc) (tag s : Nat) (num den key : Int) (h : Heap) (hl : SeqLive h s) :
-    (do let b ← newBarObj; Gen.HeapFns.barInit g tag b s num den key 0; pure b : HM Nat) h
+    (do let b ← newBarObj; Gen.HeapFns.barInit g tag b s num den key; pure b : HM Nat) h
       = (.ok (HeapOps.barInit (orcOf g) tag h s num den key).2, (HeapOps.barInit (orcOf g) tag h s num den key).1) := by
   simp only [run_bind, newBarObj, run_alloc, bindRes_ok, newBar_snd, barNew_run g tag s num den key h hl, run_pure]
   rfl
@@ -98,12 +109,8 @@ def BarCopyOk (h : Heap) (b : Nat) : Prop := SeqCopyOk h (h.bar b).seq
     (`Sequence.copy`), a NEW bar is constructed on the copy, with the source's signature and key. (A2) -/
 theorem barCopy_eq (g : GOrc) (tag b : Nat) (h : Heap) (hok : BarCopyOk h b) :
     Gen.HeapFns.barCopy g tag b h
-      = (.ok (HeapOps.barCopy (orcOf g) tag h b).2, (HeapOps.barCopy (orcOf g) tag h b).1) := by
-  unfold Gen.HeapFns.barCopy HeapOps.barCopy
-  have hlive := seqCopy_live h (h.bar b).seq hok
-  simp only [run_bind, run_get, bindRes_ok, sequenceCopy_run g tag _ h hok, newBarObj, run_alloc, newBar_snd, seqCopy_bar,
-    barNew_run g tag _ _ _ _ _ hlive, run_pure]
-  rfl
+      = (.ok (HeapOps.barCopy (orcOf g) tag h b).2, (HeapOps.barCopy (orcOf g) tag h b).1) :=
+  barCopy_run g tag b h hok
 
 /-- `exState` of C16c holds a sequence, its copy, a bar (cell 0) and a copy of that bar -/
 example : BarCopyOk C16c.exState.1 0 := by
@@ -151,7 +158,7 @@ theorem sequenceSplit_fresh (g : GOrc) (tag s : Nat) (h : Heap) (hall : AllocAll
       ∧ ∀ c, h.alloc c → c ∉ reach h (.seq, s) → h'.get c = h.get c :=
   ⟨_, _, sequenceSplit_eq g tag s h hp, derive_fresh_split g.orc tag h s hall⟩
 
-example : PiecesOk ⟨C16c.exOrc, fun _ _ => false, fun _ _ => none⟩ 0 C16c.exHeap 0 := by
+example : PiecesOk ⟨C16c.exOrc, fun _ _ => false⟩ 0 C16c.exHeap 0 := by
   unfold PiecesOk
   have hg : getRel C16c.exOrc C16c.exHeap 0 = (C16c.exHeap, some 0) :=
     getRel_of_live ⟨by decide, by decide⟩
@@ -163,18 +170,51 @@ example : PiecesOk ⟨C16c.exOrc, fun _ _ => false, fun _ _ => none⟩ 0 C16c.ex
   subst hp
   exact ⟨by decide, by unfold IdsOk; decide⟩
 
-/-! ## routes still tied by sampling only (translated, differential-tested, NOT proved equal) -/
+/-! ## route (3), continued: `Track.__init__` / `Track.copy`, `Composition.copy` -/
 
-/-- `Track.copy` (translated: `Gen.HeapFns.trackCopy`, with `Track.__init__`, `Bar.to_sequence`, `Sequence.concatenate`,
-    `RelativeSequence.concatenate`): the statement that would tie it to `HeapOps.trkCopy`; NOT proved -/
-def trackCopy_eq_statement : Prop :=
-  ∀ (g : GOrc) (tag t : Nat) (h : Heap), AllocAll h [(.trk, t)] → (∀ b ∈ (h.trk t).bars, BarCopyOk h b) →
-    trackCopy g tag t h = (.ok (trkCopy (orcOf g) tag h t).2, (trkCopy (orcOf g) tag h t).1)
+/-- the translated `Track(bars, name)` — a blank track cell, then the translated `Track.__init__` (attribute stores; the
+    track takes over the list of bars; `Bar.to_sequence(bars)`: a new `Sequence` whose relative view is extended with the
+    bars' message OBJECTS; the `messages_rel()` iteration; the program of the first PROGRAM_CHANGE) — IS `HeapOps.trkInit`
+    under `orcOf g`.  Hypothesis: the sequences of the bars exist and can be read. (A2) -/
+theorem trackInit_eq (g : GOrc) (tag : Nat) (bars : List Nat) (name : Int) (h : Heap)
+    (hb : ∀ b ∈ bars, (h.bar b).seq < h.nSeq ∧ SeqLive h (h.bar b).seq) :
+    (do let t ← newTrack; trackInit g tag t bars name; pure t : HM Nat) h
+      = (.ok (trkInit (orcOf g) tag h bars name).2, (trkInit (orcOf g) tag h bars name).1) := by
+  simp only [run_bind, newTrack, run_alloc, bindRes_ok, newTrk_snd, trackNew_run g tag bars name h hb, run_pure]
+  rfl
 
-/-- `Composition.copy` (translated: `Gen.HeapFns.compositionCopy`); NOT proved -/
-def compositionCopy_eq_statement : Prop :=
-  ∀ (g : GOrc) (tag c : Nat) (h : Heap), AllocAll h [(.cmp, c)] →
-    (∀ t ∈ h.cmp c, ∀ b ∈ (h.trk t).bars, BarCopyOk h b) →
-    compositionCopy g tag c h = (.ok (cmpCopy (orcOf g) tag h c).2, (cmpCopy (orcOf g) tag h c).1)
+/-- the translated `Track.copy` IS `HeapOps.trkCopy` (the step of `HOp.trkCopy`) under `orcOf g`: every bar is copied by
+    `Bar.copy` (in order; a bar listed twice is copied twice), a NEW track is constructed on the list of the copies, with the
+    source's name.  Hypothesis `TrkOk`: the track exists, each of its bars exists, the bar's sequence exists and satisfies
+    `SeqCopyOk`. (A2) -/
+theorem trackCopy_eq (g : GOrc) (tag t : Nat) (h : Heap) (hok : TrkOk h t) :
+    trackCopy g tag t h = (.ok (trkCopy (orcOf g) tag h t).2, (trkCopy (orcOf g) tag h t).1) :=
+  trackCopy_run g tag t h hok
+
+/-- the translated `Composition.copy` IS `HeapOps.cmpCopy` (the step of `HOp.cmpCopy`) under `orcOf g`: every track is copied
+    by `Track.copy`, a NEW composition holds the list of the copies.  Hypothesis: every track satisfies `TrkOk`. (A2) -/
+theorem compositionCopy_eq (g : GOrc) (tag c : Nat) (h : Heap) (hok : ∀ t ∈ h.cmp c, TrkOk h t) :
+    compositionCopy g tag c h = (.ok (cmpCopy (orcOf g) tag h c).2, (cmpCopy (orcOf g) tag h c).1) :=
+  compositionCopy_run g tag c h hok
+
+/-- `derive_fresh_trkCopy` for the TRANSLATED `Track.copy`. (A2) -/
+theorem trackCopy_fresh (g : GOrc) (tag t : Nat) (h : Heap) (hok : TrkOk h t) :
+    ∃ r h', trackCopy g tag t h = (.ok r, h') ∧ FreshCells h h' (reach h' (.trk, r))
+      ∧ ∀ c, h.alloc c → h'.get c = h.get c :=
+  ⟨_, _, trackCopy_eq g tag t h hok, derive_fresh_trkCopy (orcOf g) tag h t⟩
+
+/-- `derive_fresh_cmpCopy` for the TRANSLATED `Composition.copy`. (A2) -/
+theorem compositionCopy_fresh (g : GOrc) (tag c : Nat) (h : Heap) (hok : ∀ t ∈ h.cmp c, TrkOk h t) :
+    ∃ r h', compositionCopy g tag c h = (.ok r, h') ∧ FreshCells h h' (reach h' (.cmp, r))
+      ∧ ∀ c', h.alloc c' → h'.get c' = h.get c' :=
+  ⟨_, _, compositionCopy_eq g tag c h hok, derive_fresh_cmpCopy (orcOf g) tag h c⟩
+
+/-- `exState` with a track on its two bars (the first bar listed twice) and a composition of that track -/
+def exTrackState : Heap :=
+  let t := trkInit C16c.exOrc 7 C16c.exState.1 [0, 1, 0] pyNone
+  (t.1.newCmp [t.2, t.2]).1
+
+example : TrkOk exTrackState 0 := by decide
+example : ∀ t ∈ exTrackState.cmp 0, TrkOk exTrackState t := by decide
 
 end SCoda.HeapTie
